@@ -188,6 +188,8 @@ pub type LuaClosureExpr = Syn;
 pub type LuaStringToken = Syn;
 pub type LuaFuncStat = Syn;
 pub type LuaVarExpr = Syn;
+pub type LuaLocalStat = Syn;
+pub type LuaExpr = Syn;
 
 /// ASSUMPTION (tree/document agreement): an element of the tree parsed from the document's text has an ordered
 /// range whose two ends are offsets of that text on char boundaries (tokens are made of whole chars; C01: the tree
@@ -341,10 +343,18 @@ impl Syn {
 pub open spec fn not_syn(x: NodeOrToken<Syn, Syn>) -> Syn {
     match x { NodeOrToken::Node(n) => n, NodeOrToken::Token(t) => t }
 }
-/// all ancestors: v[0] is the parent of e, v[k+1] the parent of v[k]; as many as e has ancestors
+/// all ancestors, nearest first: v[k] is the (k+1)-th ancestor of e; as many as e has ancestors
 pub open spec fn ancestor_chain(e: Syn, v: Seq<Syn>) -> bool {
     &&& v.len() == sp_depth(e)
-    &&& forall|k: int| 0 <= k < v.len() ==> sp_parent(if k == 0 { e } else { v[k - 1] }) == Some(#[trigger] v[k])
+    &&& forall|k: int| 0 <= k < v.len() ==> nth_parent(e, (k + 1) as nat) == Some(#[trigger] v[k])
+}
+/// n-th ancestor of an element (0: the element itself)
+pub open spec fn nth_parent(e: Syn, n: nat) -> Option<Syn>
+    decreases n
+{
+    if n == 0 { Some(e) } else {
+        match nth_parent(e, (n - 1) as nat) { Some(p) => sp_parent(p), None => None }
+    }
 }
 
 /// emmylua_parser::LuaSyntaxId, transcribed (`#[derive(Debug, Clone, Copy, PartialEq, Eq, Hash)] struct { kind: LuaKind,
@@ -477,6 +487,7 @@ impl<'a> DocumentSymbolBuilder<'a> {
 //@@ build_func_stat_symbol::symbol
 //@@ build_doc_region_symbol::region_token
 //@@ build_doc_region_symbol::symbol
+//@@FINDINGS
 
 } // verus!
 fn main() {}
